@@ -149,37 +149,37 @@ structure PState where
   out : List PEvent   -- performance_events
 deriving Repr, DecidableEq
 
+/-- `if step > current_step:` … the time shifts up to `step` -/
+def perfShift (maxShift : Int) (st : PState) (step : Int) : Except XErr PState :=
+  if step > st.cur then
+    if maxShift < 0 then .error .valueError          -- PerformanceEvent(TIME_SHIFT, negative)
+    else if maxShift = 0 then .error .diverges       -- appends TIME_SHIFT 0 forever
+    else .ok { st with cur := step,
+                       out := st.out ++ shiftLoop maxShift (step - st.cur).toNat (step - st.cur) }
+  else .ok st
+
+/-- `if num_velocity_bins:` … a VELOCITY event when an onset changes the current bin -/
+def perfVelocity (nb : Int) (st : PState) (e : NEv) : Except XErr PState :=
+  if nb = 0 then .ok st
+  else if nb < 0 then .error .unmodelled
+  else
+    let bin := Gen.velocityToBin e.note.velocity nb
+    if !e.isOff && bin ≠ st.vel then
+      match mkEvent (.velocity bin) with
+      | .error x => .error x
+      | .ok ev => .ok { st with vel := bin, out := st.out ++ [ev] }
+    else .ok st
+
+/-- the NOTE_ON / NOTE_OFF event itself -/
+def perfNote (st : PState) (e : NEv) : Except XErr PState :=
+  match mkEvent (if e.isOff then .noteOff e.note.pitch else .noteOn e.note.pitch) with
+  | .error x => .error x
+  | .ok ev => .ok { st with out := st.out ++ [ev] }
+
 /-- body of `for step, idx, is_offset in note_events` -/
 def perfStep (nb maxShift : Int) (st : PState) (e : NEv) : Except XErr PState :=
-  -- time shifts
-  let r1 : Except XErr PState :=
-    if e.step > st.cur then
-      if maxShift < 0 then .error .valueError          -- PerformanceEvent(TIME_SHIFT, negative)
-      else if maxShift = 0 then .error .diverges       -- appends TIME_SHIFT 0 forever
-      else .ok { st with cur := e.step,
-                         out := st.out ++ shiftLoop maxShift (e.step - st.cur).toNat (e.step - st.cur) }
-    else .ok st
-  match r1 with
-  | .error x => .error x
-  | .ok st1 =>
-    -- velocity change
-    let r2 : Except XErr PState :=
-      if nb ≠ 0 then
-        if nb < 0 then .error .unmodelled
-        else
-          let bin := Gen.velocityToBin e.note.velocity nb
-          if !e.isOff && bin ≠ st1.vel then
-            match mkEvent (.velocity bin) with
-            | .error x => .error x
-            | .ok ev => .ok { st1 with vel := bin, out := st1.out ++ [ev] }
-          else .ok st1
-      else .ok st1
-    match r2 with
-    | .error x => .error x
-    | .ok st2 =>
-      match mkEvent (if e.isOff then .noteOff e.note.pitch else .noteOn e.note.pitch) with
-      | .error x => .error x
-      | .ok ev => .ok { st2 with out := st2.out ++ [ev] }
+  (perfShift maxShift st e.step).bind fun st1 =>
+    (perfVelocity nb st1 e).bind fun st2 => perfNote st2 e
 
 def perfLoop (nb maxShift : Int) : PState → List NEv → Except XErr PState
   | st, [] => .ok st
@@ -416,6 +416,14 @@ def chordLoop (startStep endStep : Int) :
 def chordAnns (s : NoteSeq) : List TextAnn :=
   sortByInt (·.qstep) (s.texts.filter (fun a => a.kind == Gen.CHORD_SYMBOL))
 
+/-- after the loop: `if prev_step is None or prev_step < end_step: _add_chord(prev_figure, …, end_index)` -/
+def chordFinish (startStep endStep : Int) (ps : Option Int) (pf : String) (ev : List String) :
+    Except XErr (List String) :=
+  let add := addChord ev pf (chordStartIndex ps startStep) (endStep - startStep)
+  match ps with
+  | none => add
+  | some p => if p < endStep then add else .ok ev
+
 /-- `ChordProgression().from_quantized_sequence(s, start_step, end_step)`; figures are the
 (hex-encoded) annotation texts -/
 def chordsFromQuantized (s : NoteSeq) (startStep endStep : Int) :
@@ -426,12 +434,7 @@ def chordsFromQuantized (s : NoteSeq) (startStep endStep : Int) :
     match chordLoop startStep endStep (chordAnns s) none Gen.NO_CHORD [] with
     | .error e => .error e
     | .ok (ps, pf, ev) =>
-      let r : Except XErr (List String) :=
-        match ps with
-        | none => addChord ev pf 0 (endStep - startStep)
-        | some p => if p < endStep then addChord ev pf (chordStartIndex ps startStep) (endStep - startStep)
-                    else .ok ev
-      match r with
+      match chordFinish startStep endStep ps pf ev with
       | .error e => .error e
       | .ok ev' => .ok ⟨ev', startStep, endStep, spb, s.spq⟩
 
